@@ -109,18 +109,17 @@ theorem hdrGet_enc (salt : Bytes) (saltFirst : Bool) :
   cases saltFirst <;> simp [hdrGet, sKdf, sSalt, sBcrypt]
 
 theorem decryptSymmetric_seal (C : Crypto) (L : C.Laws) (key nonce m : Bytes)
-    (hk : key.length = secretLen) (hn : nonce.length = nonceLen) (hm : m ≠ []) :
+    (hk : key.length = secretLen) (hn : nonce.length = nonceLen) :
     decryptSymmetric C (nonce ++ C.sealBox key nonce m) key = .ok m := by
   unfold decryptSymmetric
-  have hpos : 0 < m.length := List.length_pos_iff.mpr hm
-  have hlen : ¬ (nonce ++ C.sealBox key nonce m).length ≤ boxOverhead + nonceLen := by
+  have hlen : ¬ (nonce ++ C.sealBox key nonce m).length < boxOverhead + nonceLen := by
     simp only [List.length_append, L.seal_len, hn]; omega
   simp only [hk, ne_eq, not_true_eq_false, if_false, hlen]
   rw [List.take_left' hn, List.drop_left' hn, L.open_seal]
 
 /-- `UnarmorDecryptPrivKey(EncryptArmorPrivKey(key, pass), pass) = key` -/
 theorem roundtrip (C : Crypto) (L : C.Laws) (keyBytes pass salt nonce : Bytes) (saltFirst : Bool)
-    (hkey : C.keyFromBytes keyBytes = some keyBytes) (hne : keyBytes ≠ [])
+    (hkey : C.keyFromBytes keyBytes = some keyBytes)
     (hsalt : salt.length = 16) (hnonce : nonce.length = nonceLen) :
     ∃ text, encryptArmorPrivKey C keyBytes pass salt nonce saltFirst = .ok text ∧
       unarmorDecryptPrivKey C text pass = .ok keyBytes := by
@@ -147,7 +146,7 @@ theorem roundtrip (C : Crypto) (L : C.Laws) (keyBytes pass salt nonce : Bytes) (
       Nat.reduceEqDiff, Bool.false_and]
     unfold decryptPrivKey
     simp only [hsalt, ne_eq, not_true_eq_false, if_false, Crypto.kdf]
-    rw [decryptSymmetric_seal C L _ _ _ hklen hnonce hne]
+    rw [decryptSymmetric_seal C L _ _ _ hklen hnonce]
     simp [keyOf, hkey]
 
 /-- the key stream is all the passphrase contributes -/
@@ -330,7 +329,7 @@ theorem keyStream_prefix (p q : Bytes) (h : p.take 72 = q.take 72) (hp : 72 ≤ 
 /-- the statement's clause "fails with any other passphrase", for the model -/
 def wrong_passphrase_statement (C : Crypto) : Prop :=
   ∀ keyBytes pass pass' salt nonce saltFirst text,
-    C.keyFromBytes keyBytes = some keyBytes → keyBytes ≠ [] → salt.length = 16 → nonce.length = nonceLen →
+    C.keyFromBytes keyBytes = some keyBytes → salt.length = 16 → nonce.length = nonceLen →
     pass' ≠ pass → encryptArmorPrivKey C keyBytes pass salt nonce saltFirst = .ok text →
     ∃ e, unarmorDecryptPrivKey C text pass' = .error e
 
